@@ -7,6 +7,7 @@ def run(ctx):
         harness=("TestVerif_C13", ["kmd/common.go", "kmd/creds.go", "kmd/c13.go"]),
         cases=("CasesC13.v", [("c13_mismatches", "CanRedirectToURL / CorsOriginAllowed / generic CORS = model on the components url.Parse delivers, 12 client configurations, pattern verdicts per configured pattern (match / no match / refused by the regexp library)"),
                               ("c13_split_mismatches", "net/url.Parse = Gallina splitter on members and near-misses of the conservative https grammar", "CasesC13split.idx")], "CasesC13.idx"),
+        violating=[("c13_violating", "allowed-where-specification-refuses", "CasesC13.idx")],
         trusted=["net/url.Parse and regexp run in front of the decision model (scheme, RawQuery, Path, Hostname and the pattern verdict are its inputs); on the conservative grammar of Model/UrlSplit.v net/url.Parse itself is compared with the Gallina splitter",
                  "harness WHATWG host extractor (special-scheme rules: backslash = slash, tab/CR/LF stripped, last @, percent-decoding, lower-casing) stands in for browsers"],
         assumptions=["agreement between net/url and browsers about the host of the raw string is tested against the harness's WHATWG oracle on the adversarial grammar, not proved"],
